@@ -40,13 +40,13 @@ def eval_chunk(chunk, module, open_devs, timeout=1800, extra=""):
     return r, fails
 
 
-def live_devs(check, vh, module, known_devs, extra=""):
+def live_devs(check, vh, module, known_devs, extra="", driver="drive-schema"):
     """A listed deviation is honoured only while its witness input still fails on the current tree."""
     if not known_devs:
         return {}
     wd = common.workdir("%s-witness" % check.prop)
     names = sorted(known_devs)
-    meta = drive(vh, wd, ["-mode", "witness", "-witness", ",".join(known_devs[n]["witness"] for n in names)])
+    common.run([vh, driver, "-out", wd, "-mode", "witness", "-witness", ",".join(known_devs[n]["witness"] for n in names)])
     r, fails = eval_chunk(chunks(wd)[0], module, names, extra=extra)
     check.add_tlc(r)
     live = {}
